@@ -47,6 +47,10 @@ def run(run, ix, tier):
     from .kernel_rules import check_exact_operand_conversion
     run.rule('B-R3x', floor=8, desc='int/float operands of the operators are converted exactly')
     check_exact_operand_conversion(run, ix, 'B-R3x')
+    # S-R3: special bases (0, +-inf, nan) with exponents -3..3 (sa/checks/special_rules.py)
+    from .special_rules import check_pow_int_specials
+    run.rule('S-R3', floor=20, desc='mpf_pow_int on special bases')
+    check_pow_int_specials(run, ix, 'S-R3')
     pw = [g for g in ix.generated if g.qualname == '_mpf.__pow__']
     if not pw:
         raise AnalysisError('generated _mpf.__pow__ not found')
